@@ -340,6 +340,24 @@ def r03_3(ctx):
         ctx.check("set_dest_type re-conversion", ok and order_ok, "set_value_type(T) then set_src(Conv(type(dest),src))", str(setters), fn_where(idx, fi))
 
     declaration_retypes_its_variable(ctx)
+    # macro arguments: what the invocation node carries are the CONVERTED arguments (value parameters of every macro kind)
+    for nparams, ext_first in ((3, False), (2, True)):
+        r = Runner(idx)
+
+        def over_m(nparams=nparams, ext_first=ext_first):
+            pts = [vt_case(f"pt{k}", False, 64) for k in range(nparams)]
+            if ext_first:
+                pts[0] = vt_case("pt0", False, 64, ("EXTERNAL",))
+            return {"macros": {"extract64": AObj("Macro", {"param_types": pts, "name": "extract64"}, label="macro", opaque=True)}}
+        fi, outs = r.run("macro_expr", lambda nparams=nparams: [Tok("RIZIN_MACRO", "extract64")] + [r.pure(f"items[{k + 1}]", vt=vt_case(f"ta{k}", True, 32)) for k in range(nparams)], self_over=over_m)
+        good = [o for o in outs if o.kind != "raise"]
+        ctx.need(good, "macro_expr has no translating path")
+        for o in good:
+            v = o.value
+            args_ = (ctor(v, "arguments") or ctor(v, "args")) if isinstance(v, AObj) and v.cls == "MacroInvocation" else None
+            labs = [clean(lab(x)) for x in args_] if isinstance(args_, list) else [lab(v)]
+            exp = [f"items[{k + 1}]" if (ext_first and k == 0) else f"Conv((u,64),items[{k + 1}])" for k in range(nparams)]
+            ctx.check(f"macro_expr[{nparams} parameters{', first external' if ext_first else ''}]: the invocation carries the converted arguments", labs == exp, str(exp), str(labs), fn_where(idx, fi))
 
     # --- arguments: cast_arg_list
     r = Runner(idx)
